@@ -30,7 +30,7 @@ func TestC13PartialRecovery(t *testing.T) {
 		k := rapid.IntRange(6, 30).Draw(t, "writes_accepted_in_between")
 		m := k - 2 - rapid.IntRange(0, 2).Draw(t, "slack")
 		desc := fmt.Sprintf("channels=%d overflowItems=%d acceptedInBetween=%d thenWritten=%d", nch, over, k, m)
-		if err := watchdog(scenarioLimit, func() error { return runC13Partial(nch, over, k, m) }); err != nil {
+		if err := watchdog(scenarioLimit, func() error { return runC13Partial(nch, over, k, m, 0) }); err != nil {
 			evid.ReplayNote("C13", "TestC13PartialRecovery", desc+"\n"+err.Error())
 			t.Fatalf("%s\n%v", desc, err)
 		}
@@ -41,7 +41,7 @@ func TestC13PartialRecovery(t *testing.T) {
 	})
 }
 
-func runC13Partial(nch, over, k, m int) error {
+func runC13Partial(nch, over, k, m, how int) error {
 	pipes := make([]*sim.Pipe, nch)
 	var endpoints []gomavlib.EndpointConf
 	for i := range pipes {
@@ -84,7 +84,19 @@ func runC13Partial(nch, over, k, m int) error {
 	}
 	first := counter
 	for i := 0; i < m; i++ {
-		if err := n.WriteMessageTo(chans[0], &common.MessageDebug{TimeBootMs: uint32(counter), Ind: 4}); err != nil {
+		var err error
+		msg := &common.MessageDebug{TimeBootMs: uint32(counter), Ind: 4}
+		switch how {
+		case 0:
+			err = n.WriteMessageTo(chans[0], msg)
+		case 1:
+			err = n.WriteMessageAll(msg)
+		case 2:
+			err = n.WriteMessageExcept(nil, msg)
+		case 3:
+			err = n.WriteMessageExcept(chans[1], msg)
+		}
+		if err != nil {
 			return fmt.Errorf("write refused: %v", err)
 		}
 		counter++
